@@ -379,14 +379,20 @@ fn merge_folded_faces(input: &DSetOrEmpty) -> Option<DSetOrEmpty> {
                                     cells_are_spheres(&out, [0, 1, 2]) &&
                                     cells_are_spheres(&out, [1, 2, 3])
                                 {
+                                    #[cfg(rust_dsymbols_verif)]
+                                    crate::verif_hooks::probe("simplify::move::fix_folded_faces");
                                     return Some(DSetOrEmpty::DSet(out));
                                 }
                             },
                             Some(DSetOrEmpty::Empty) => {
+                                #[cfg(rust_dsymbols_verif)]
+                                crate::verif_hooks::probe("simplify::move::fix_folded_faces");
                                 return Some(DSetOrEmpty::Empty);
                             },
                             None => {},
                         }
+                        #[cfg(rust_dsymbols_verif)]
+                        crate::verif_hooks::probe("simplify::move::fix_folded_faces::declined");
                     }
                 }
             }
